@@ -199,24 +199,32 @@ func acquireCtx(req *fasthttp.Request, res *fasthttp.Response) *Ctx {
 	ctx := clientCtxPool.Get().(*Ctx)
 	verifPoolGet(5, ctx)
 
-	// Nothing else refers to a Ctx that came out of the pool, so these are
-	// plain writes. A resolve that landed after the last caller stopped reading
-	// would still be sitting in the buffer.
+	// A resolve that landed after the last caller stopped reading would still
+	// be sitting in the buffer.
 	select {
 	case <-ctx.Err:
 	default:
 	}
 
+	// A loop can still hold a pointer to the request this Ctx carried last, and
+	// finds out that it is no longer its own by looking at it (acquireFor,
+	// resolve). Those looks are taken under the locks, so the fields they read
+	// are written under the locks too.
+	ctx.lck.Lock()
 	ctx.Request = req
 	ctx.Response = res
-	ctx.streamID = 0
+	atomic.StoreUint32(&ctx.streamID, 0)
 	ctx.done = false
+	ctx.gotStatus = false
+	ctx.conn.Store(nil)
+	ctx.lck.Unlock()
+
+	ctx.resLck.Lock()
 	ctx.resolved = false
 	ctx.finished = false
-	ctx.armed = false
-	ctx.gotStatus = false
+	ctx.resLck.Unlock()
 
-	ctx.conn.Store(nil)
+	ctx.armed = false
 
 	return ctx
 }
